@@ -69,7 +69,7 @@ def gen_case(rng, tier, solver="euler"):
         es = mdl["circuit"]["edges"]
         if not es:
             continue
-        dt = rng.choice([F(1), F(1, 2), F(1, 4)])
+        dt = rng.choice([F(1), F(1, 2), F(1, 4), F(3, 4), F(2), F(3, 2)])      # incl. step sizes whose reciprocal is not an integer
         any_delay = False
         # configurations the implementation refuses loudly are not generated: delayed edges from two different variables of one source operator
         # ("Buffer variable name collision") and several edges between the same pair of variables when one of them is delayed (IndexError)
